@@ -226,7 +226,12 @@ package msgpipeline
 //@   loop 2 invariant ddOK(dd) && allGroupsChecked(dd) && gRejectN == old(gRejectN) && ((gQuarN > old(gQuarN) || old(dd.checkRunner.mergedRes.Quarantine) || old(dd.msgMeta.Quarantine)) ==> dd.msgMeta.Quarantine)
 // The LMTP / per-recipient path is held to the same protocol.
 //@ func (*msgpipelineDelivery).BodyNonAtomic
-//@   prop C06
+//@   prop C06 C09
+// C09: a target that reports per recipient is given a collector that translates its keys through this message's
+// OriginalRcpts and passes them to the caller's collector; for any other target a failure is reported under the
+// entries of its recipient list (client-supplied addresses).
+//@   assert-call (module.PartialDelivery).BodyNonAtomic : isType($c, "statusCollector") && as($c, "statusCollector").originalRcpts == dd.msgMeta.OriginalRcpts && as($c, "statusCollector").wrapped == c
+//@   assert-call (module.StatusCollector).SetStatus : $c == c && $err != nil && $rcptTo == delivery.recipients[rangeindex + 1]
 //@   modifies *
 //@   requires ddOK(dd)
 //@   ensures old(dd.msgMeta.Quarantine) ==> dd.msgMeta.Quarantine
@@ -238,8 +243,21 @@ package msgpipeline
 //@   loop 0 invariant gBodyGroups[arrOf(dd.d.globalChecks)] && gBodyGroups[arrOf(dd.sourceBlock.checks)] && (forall b *rcptBlock :: iterpos()[b] ==> gBodyGroups[arrOf(b.checks)])
 //@   loop 1 invariant ddOK(dd) && allGroupsChecked(dd) && gRejectN == old(gRejectN) && ((gQuarN > old(gQuarN) || old(dd.checkRunner.mergedRes.Quarantine) || old(dd.msgMeta.Quarantine)) ==> dd.msgMeta.Quarantine)
 //@   loop 2 invariant ddOK(dd) && allGroupsChecked(dd) && gRejectN == old(gRejectN) && ((gQuarN > old(gQuarN) || old(dd.checkRunner.mergedRes.Quarantine) || old(dd.msgMeta.Quarantine)) ==> dd.msgMeta.Quarantine)
+// setStatusAll: the error is reported once per entry of the recipient list of every target delivery; those entries
+// are the addresses the client supplied (see AddRcpt), not the rewritten ones.
 //@ func (*msgpipelineDelivery).BodyNonAtomic$1
-//@   prop C06
+//@   prop C06 C09
+//@   modifies gStCnt
+//@   assert-call (module.StatusCollector).SetStatus : $c == c && $err == err && $rcptTo == delivery.recipients[rangeindex + 1]
+// C09: reverse translation of rewritten recipients: a status reported by a target under an effective recipient is
+// passed on, once, under the address the client supplied for it (the OriginalRcpts entry), any other key unchanged.
+//@ func (statusCollector).SetStatus
+//@   prop C09
+//@   requires sc.wrapped != nil
+//@   modifies gStCnt
+//@   ensures has(sc.originalRcpts, rcptTo) ==> gStCnt == store(old(gStCnt), sc.originalRcpts[rcptTo], old(gStCnt)[sc.originalRcpts[rcptTo]] + 1)
+//@   ensures !has(sc.originalRcpts, rcptTo) ==> gStCnt == store(old(gStCnt), rcptTo, old(gStCnt)[rcptTo] + 1)
+//@   assert-call (module.StatusCollector).SetStatus : $c == sc.wrapped && $err == err
 
 // ---- C04: block selection ----
 // A table is a function of (table, key) (assumption A-iface: lookups are pure for the duration of a message).
@@ -320,7 +338,7 @@ package msgpipeline
 // the block the precedence function selected for that effective recipient, under the address produced by the block's
 // own modifiers; the client-supplied address is what is recorded for status reporting and in OriginalRcpts.
 //@ func (*msgpipelineDelivery).AddRcpt
-//@   prop C04
+//@   prop C04 C09
 //@   modifies *
 //@   requires ddOK(dd) && dd.rcptModifiersState != nil && dd.deliveries != nil && dd.msgMeta.OriginalRcpts != nil
 //@   assert-call (*msgpipelineDelivery).rcptBlockForAddr : $rcptTo == to
@@ -328,3 +346,6 @@ package msgpipeline
 //@   assert-call (*msgpipelineDelivery).getDelivery : rcptBlock == gSelBlock && rcptBlock.rejectErr == nil && 0 <= rangeindex + 1 && rangeindex + 1 < len(rcptBlock.targets) && $tgt == rcptBlock.targets[rangeindex + 1]
 //@   assert-call (module.Delivery).AddRcpt : $rcptTo == to && $d == delivery.Delivery
 //@   assert-update OriginalRcpts : $key == to && $value == originalTo && $key != $value
+// C09: what a target delivery's recipient list (the keys of statuses reported for targets that cannot report per
+// recipient) grows by is the address the client supplied, once per AddRcpt accepted by that target.
+//@   assert-store recipients : $obj == delivery && len($value) == len($old) + 1 && $value[len($old)] == old(to) && (forall k int :: 0 <= k && k < len($old) ==> $value[k] == $old[k])
